@@ -133,6 +133,11 @@ fn text_seed(fmt: TextArchiveFormat, e: Endian) -> Vec<u8> {
     t.set_message("MID_A", "hello\\nworld");
     t.set_message("MID_B", "");
     t.set_message("MID_キー", "日本");
+    if let TextArchiveFormat::Unicode = fmt {
+        // supplementary-plane characters (surrogate pairs with lead units from D83D to DBFF)
+        t.set_message("MID_ASTRAL", "\u{20BB7}\u{20BB7}\u{20BB7}\u{1F600}\u{10FFFF}x");
+        t.set_message("MID_ASTRAL2", "\u{2A6D6}\u{10000}");
+    }
     t.serialize().expect("text seed")
 }
 
